@@ -12,7 +12,7 @@ Import ListNotations.
 Close Scope N_scope.
 Open Scope nat_scope.
 
-Notation twf_td := (wf_td token tok_class is_int_ty).
+Notation twf_td := (wf_td token tok_class t_text tok_num is_int_ty).
 Notation terase_td := (erase_td token tok_class t_text tok_num ty_name).
 
 (* ---- which declarations the renderer writes back faithfully ---- *)
@@ -135,7 +135,7 @@ Proof.
   all: split; [apply nl1_triv|]; split; [|apply nl1_triv]; split; [exact W|]; rewrite A; discriminate.
 Qed.
 
-Lemma fwb_sp_spec d : fditem_ok d -> wf_fwb token tok_class (wb_sp d) /\ derase_wb (wb_sp d) = [d].
+Lemma fwb_sp_spec d : fditem_ok d -> wf_fwb token tok_class t_text tok_num (wb_sp d) /\ derase_wb (wb_sp d) = [d].
 Proof.
   intros (Hd & Hx). destruct (wb_sp_spec d Hd) as (W & E). split; [|exact E].
   destruct W as (Wt & Wb). split; [exact Wt|]. split; [exact Wb|].
@@ -146,7 +146,7 @@ Proof.
   - rewrite class_kw_spec. exact I.
 Qed.
 
-Lemma fwbs_spec ds : Forall fditem_ok ds -> Forall (wf_fwb token tok_class) (map wb_sp ds) /\ flat_map derase_wb (map wb_sp ds) = ds.
+Lemma fwbs_spec ds : Forall fditem_ok ds -> Forall (wf_fwb token tok_class t_text tok_num) (map wb_sp ds) /\ flat_map derase_wb (map wb_sp ds) = ds.
 Proof.
   induction 1 as [|d ds Hd _ (W & E)]; [split; [constructor | reflexivity]|].
   destruct (fwb_sp_spec d Hd) as (Wd & Ed). cbn [map flat_map]. split; [constructor; assumption|]. rewrite Ed, E. reflexivity.
